@@ -1,1 +1,263 @@
-/-! Property theorems for C13 (stub: not built yet). -/
+import UsualProofs.C13.Literal
+import UsualProofs.C13.Fqident
+import UsualProofs.C13.ArraySafe
+import UsualProofs.C13.ArrayRT
+/-!
+# C13 — PostgreSQL quoting is injection-proof; array parsing is safe and exact
+
+Models: `Usual.C13` (PgQuote = pgutil.c quoting with repair F07, PgArray = pg_parse_array with
+repair F08, Gen.C13Kw = gperf tables regenerated from the tree on every run).
+Specs: `Usual.C13.lexLiteral / lexIdent / lexFqIdent` (PostgreSQL lexer), `renderArray` +
+`Elem.valid` (array text grammar), `litText / identText / fqText` (expected output, used for
+"needed length").  A destination is `Dst`: `buf` (exactly `dstlen` cells) and `idx`, the log of
+every index stored to; `cstr buf` is the C string at its start.
+-/
+namespace UsualProps.C13
+open Usual.C13 UsualProofs.C13 Usual.Gen.C13Kw
+
+/-! ## T-tie: the regenerated keyword tables -/
+
+/-- every word of `pgutil_kwlookup.g` is found by the (modelled) gperf lookup over the tables
+    regenerated from `pgutil_kwlookup.h`, and whatever the lookup finds is the word asked for
+    and is on the list.  (`kw_found_all`, `wordlist_sound` are `decide +kernel` on the tables.) -/
+theorem kw_table_ok :
+    (∀ w ∈ kwWords, kwLookup w = some w) ∧
+    (∀ w s, kwLookup w = some s → s = w ∧ w ∈ kwWords) :=
+  ⟨kw_found, kwLookup_eq⟩
+
+example : kwLookup [115, 101, 108, 101, 99, 116] = some [115, 101, 108, 101, 99, 116] ∧
+    kwLookup [115, 101, 108, 101, 99, 116, 115] = none := by decide
+
+/-- `pg_is_reserved_word` decides membership in the reserved list -/
+theorem reserved_iff (w : Bytes) : isReserved w = true ↔ w ∈ kwWords := isReserved_iff w
+
+example : isReserved [117, 115, 101, 114] = true ∧ isReserved [117, 115, 101, 114, 115] = false := by decide
+
+/-! ## Memory safety of the destination and termination -/
+
+/-- `pg_quote_literal`: every store is inside the destination, for every source (also NULL)
+    and every size, whether it returns true or false -/
+theorem quote_bounds_literal (src : Option Bytes) (n : Nat) :
+    ∀ i ∈ (quoteLiteral src n).2.idx, i < n := by
+  cases src with
+  | none => exact (quoteLiteral_null_spec n).1
+  | some s => exact (quoteLiteral_spec s n).1
+
+example : (quoteLiteral (some [97, 39, 92]) 8).2.idx = [6, 5, 4, 3, 2, 1, 0, 3, 2, 1, 0] ∧
+    (quoteLiteral (some [97, 39, 92]) 8).1 = false := by decide
+
+/-- `pg_quote_ident` (repaired): every store is inside the destination -/
+theorem quote_bounds_ident (s : Bytes) (n : Nat) : ∀ i ∈ (quoteIdent s n).2.idx, i < n := by
+  obtain ⟨⟨X, g⟩, _, _⟩ := quoteIdentAt_spec [] 0 n n rfl (by omega) s (Dst.new n) (Good.new n)
+  exact g.idx
+
+example : (quoteIdent [97, 34] 5).1 = false ∧ (quoteIdent [97, 34] 5).2.idx = [3, 2, 1, 0, 0] := by decide
+
+/-- `pg_quote_fqident` (repaired): every store is inside the destination -/
+theorem quote_bounds_fqident (s : Bytes) (n : Nat) (h0 : 0 ∉ s) :
+    ∀ i ∈ (quoteFqident s n).2.idx, i < n := (quoteFqident_spec s n h0).1
+
+example : (quoteFqident [97, 46, 34] 6).1 = false ∧ 4 ∈ (quoteFqident [97, 46, 34] 6).2.idx := by decide
+
+/-- F7, the code at the pinned commit: `pg_quote_ident("a\"", dst, 5)` stores to `dst[5]`
+    (and returns true) -/
+theorem quote_ident_old_overflow :
+    (quoteIdentOld [97, 34] 5).1 = true ∧ 5 ∈ (quoteIdentOld [97, 34] 5).2.idx := by decide
+
+/-- whenever a quoting function returns true the destination holds a NUL-terminated string -/
+theorem quote_terminated (s : Bytes) (n : Nat) (h0 : 0 ∉ s) :
+    ((quoteLiteral (some s) n).1 = true → terminated (quoteLiteral (some s) n).2.buf = true) ∧
+    ((quoteLiteral none n).1 = true → terminated (quoteLiteral none n).2.buf = true) ∧
+    ((quoteIdent s n).1 = true → terminated (quoteIdent s n).2.buf = true) ∧
+    ((quoteFqident s n).1 = true → terminated (quoteFqident s n).2.buf = true) := by
+  refine ⟨?_, ?_, ?_, ?_⟩
+  · intro h
+    obtain ⟨T, hT⟩ := (quoteLiteral_spec s n).2.2 h
+    exact terminated_of_prefix _ _ T hT
+  · intro h
+    obtain ⟨T, hT⟩ := (quoteLiteral_null_spec n).2.2 h
+    exact terminated_of_prefix _ _ T hT
+  · intro h
+    obtain ⟨_, _, hb⟩ := quoteIdentAt_spec [] 0 n n rfl (by omega) s (Dst.new n) (Good.new n)
+    obtain ⟨T, hT⟩ := hb h
+    exact terminated_of_prefix _ _ T (by simpa [quoteIdent] using hT)
+  · intro h
+    obtain ⟨T, hT⟩ := (quoteFqident_spec s n h0).2.2 h
+    exact terminated_of_prefix _ _ T hT
+
+example : (quoteFqident [97, 46, 34] 10).1 = true ∧ terminated (quoteFqident [97, 46, 34] 10).2.buf = true := by decide
+
+/-! ## Returns true exactly when the result fits -/
+
+/-- `pg_quote_literal` returns true ⇔ text + NUL fit into `dstlen` -/
+theorem fits_iff_literal (s : Bytes) (n : Nat) : (quoteLiteral (some s) n).1 = true ↔ litNeeded s ≤ n :=
+  (quoteLiteral_spec s n).2.1
+
+example : litNeeded [97, 39, 92] = 9 ∧ (quoteLiteral (some [97, 39, 92]) 9).1 = true ∧
+    (quoteLiteral (some [97, 39, 92]) 8).1 = false := by decide
+
+/-- `pg_quote_literal(dst, NULL, n)` returns true ⇔ `"NULL"` fits, and then stores exactly that -/
+theorem literal_null (n : Nat) :
+    ((quoteLiteral none n).1 = true ↔ 5 ≤ n) ∧
+    ((quoteLiteral none n).1 = true → cstr (quoteLiteral none n).2.buf = [78, 85, 76, 76]) := by
+  refine ⟨(quoteLiteral_null_spec n).2.1, ?_⟩
+  intro h
+  obtain ⟨T, hT⟩ := (quoteLiteral_null_spec n).2.2 h
+  exact cstr_of_prefix _ _ T hT (by decide)
+
+example : (quoteLiteral none 5).1 = true ∧ (quoteLiteral none 4).1 = false := by decide
+
+/-- `pg_quote_ident` (repaired) returns true ⇔ text + NUL fit into `dstlen` -/
+theorem fits_iff_ident (s : Bytes) (n : Nat) : (quoteIdent s n).1 = true ↔ identNeeded s ≤ n :=
+  (quoteIdentAt_spec [] 0 n n rfl (by omega) s (Dst.new n) (Good.new n)).2.1
+
+example : identNeeded [97, 34] = 6 ∧ (quoteIdent [97, 34] 6).1 = true ∧ (quoteIdent [97, 34] 5).1 = false := by decide
+
+/-- `pg_quote_fqident` (repaired) returns true ⇔ text + NUL fit into `dstlen`, for schema parts
+    shorter than its 128-byte `scmbuf` (longer ones are refused whatever `dstlen` is) -/
+theorem fits_iff_fqident (s : Bytes) (n : Nat) (h0 : 0 ∉ s) (h128 : (fqParts s).1.length < 128) :
+    (quoteFqident s n).1 = true ↔ fqNeeded s ≤ n := (quoteFqident_spec s n h0).2.1 h128
+
+example : fqNeeded [97, 46, 34] = 7 ∧ (quoteFqident [97, 46, 34] 7).1 = true ∧
+    (quoteFqident [97, 46, 34] 6).1 = false := by decide
+
+/-! ## Injection safety: the output is one token that decodes to exactly the input -/
+
+/-- LITERAL: if `pg_quote_literal` returns true, the C string in the destination is a single
+    string constant (`'…'`, or `E'…'`) that the PostgreSQL lexer decodes to exactly `s`, with
+    nothing left over — for every byte string without NUL and every destination size -/
+theorem literal_roundtrip (s : Bytes) (n : Nat) (h0 : 0 ∉ s)
+    (hok : (quoteLiteral (some s) n).1 = true) :
+    lexLiteral (cstr (quoteLiteral (some s) n).2.buf) = some (s, []) := by
+  obtain ⟨T, hT⟩ := (quoteLiteral_spec s n).2.2 hok
+  rw [cstr_of_prefix _ _ T hT (litText_no_nul s h0)]
+  exact lexLiteral_litText s
+
+example : (quoteLiteral (some [39, 59, 92, 39]) 12).1 = true ∧
+    cstr (quoteLiteral (some [39, 59, 92, 39]) 12).2.buf = [69, 39, 39, 39, 59, 92, 92, 39, 39, 39] ∧
+    lexLiteral [69, 39, 39, 39, 59, 92, 92, 39, 39, 39] = some ([39, 59, 92, 39], []) := by decide
+
+/-- IDENTIFIER: if `pg_quote_ident` returns true, the output is a single identifier token that
+    the lexer decodes (case folding, reserved words, `""`) to exactly the non-empty input -/
+theorem ident_roundtrip (s : Bytes) (n : Nat) (h0 : 0 ∉ s) (hne : s ≠ [])
+    (hok : (quoteIdent s n).1 = true) :
+    lexIdent (cstr (quoteIdent s n).2.buf) = some (s, []) := by
+  obtain ⟨_, _, hb⟩ := quoteIdentAt_spec [] 0 n n rfl (by omega) s (Dst.new n) (Good.new n)
+  obtain ⟨T, hT⟩ := hb hok
+  have hT' : (quoteIdent s n).2.buf = identText s ++ 0 :: T := by simpa [quoteIdent] using hT
+  rw [cstr_of_prefix _ _ T hT' (identText_no_nul s h0)]
+  have := lexIdent_identText s [] hne restOk_nil
+  simpa using this
+
+example : (quoteIdent [117, 115, 101, 114] 10).1 = true ∧
+    cstr (quoteIdent [117, 115, 101, 114] 10).2.buf = [34, 117, 115, 101, 114, 34] ∧
+    lexIdent [34, 117, 115, 101, 114, 34] = some ([117, 115, 101, 114], []) ∧
+    lexIdent [117, 115, 101, 114] = none := by decide
+
+/-- an identifier that comes out without quotes is the input itself, is not a reserved word and
+    lexes to itself -/
+theorem bare_not_reserved (s : Bytes) (n : Nat) (h0 : 0 ∉ s) (hne : s ≠ [])
+    (hok : (quoteIdent s n).1 = true)
+    (hbare : (cstr (quoteIdent s n).2.buf).head? ≠ some cDQ) :
+    cstr (quoteIdent s n).2.buf = s ∧ s ∉ kwWords ∧ isReserved s = false ∧
+    lexIdent s = some (s, []) := by
+  obtain ⟨_, _, hb⟩ := quoteIdentAt_spec [] 0 n n rfl (by omega) s (Dst.new n) (Good.new n)
+  obtain ⟨T, hT⟩ := hb hok
+  have hT' : (quoteIdent s n).2.buf = identText s ++ 0 :: T := by simpa [quoteIdent] using hT
+  have hc := cstr_of_prefix _ _ T hT' (identText_no_nul s h0)
+  rw [hc] at hbare
+  have hbo : bareOk s = true := by
+    apply Classical.byContradiction
+    intro h
+    have : bareOk s = false := by simpa using h
+    rw [identText_quoted s this] at hbare
+    simp at hbare
+  have hit : identText s = s := by simp [identText, hbo]
+  have hres : isReserved s = false := by
+    simp only [bareOk, Bool.decide_and, Bool.decide_eq_true, Bool.and_eq_true, Bool.not_eq_eq_eq_not,
+      Bool.not_true] at hbo
+    simpa using hbo.2.2
+  refine ⟨by rw [hc, hit], ?_, hres, ?_⟩
+  · intro hm
+    have := (isReserved_iff s).mpr hm
+    rw [hres] at this; cases this
+  · have := lexIdent_identText s [] hne restOk_nil
+    rw [hit] at this
+    simpa using this
+
+example : (quoteIdent [117, 115, 101, 114, 115] 10).1 = true ∧
+    cstr (quoteIdent [117, 115, 101, 114, 115] 10).2.buf = [117, 115, 101, 114, 115] := by decide
+
+/-- QUALIFIED NAME: if `pg_quote_fqident` returns true, the output is `identifier . identifier`
+    decoding to (schema, name) — split at the first dot, schema `public` when there is none —
+    for inputs whose two parts are non-empty -/
+theorem fqident_roundtrip (s : Bytes) (n : Nat) (h0 : 0 ∉ s)
+    (h1 : (fqParts s).1 ≠ []) (h2 : (fqParts s).2 ≠ [])
+    (hok : (quoteFqident s n).1 = true) :
+    lexFqIdent (cstr (quoteFqident s n).2.buf) = some (fqParts s, []) := by
+  obtain ⟨T, hT⟩ := (quoteFqident_spec s n h0).2.2 hok
+  have hp := fqParts_no_nul s h0
+  have hnn : 0 ∉ fqText s := by
+    unfold fqText
+    have a := identText_no_nul _ hp.1
+    have b := identText_no_nul _ hp.2
+    simp [a, b, cDot]
+  rw [cstr_of_prefix _ _ T hT hnn]
+  exact lexFqIdent_fqText s h1 h2
+
+example : (quoteFqident [97, 46, 98, 46, 34] 14).1 = true ∧
+    cstr (quoteFqident [97, 46, 98, 46, 34] 14).2.buf = [97, 46, 34, 98, 46, 34, 34, 34] ∧
+    lexFqIdent [97, 46, 34, 98, 46, 34, 34, 34] = some (([97], [98, 46, 34]), []) := by decide
+
+example : cstr (quoteFqident [120] 20).2.buf = [112, 117, 98, 108, 105, 99, 46, 120] := by decide
+
+/-! ## pg_parse_array -/
+
+/-- `pg_parse_array` (repaired) on a block whose byte `N` is NUL (in particular `N` = index of the
+    first NUL) reads only indices `≤ N`, and answers NULL or a list -/
+theorem array_reads_in_bounds (b : Bytes) (N : Nat) (h0 : b.getD N 0 = 0) (hN : N < b.length) :
+    (∀ i ∈ (parseArray b).2, i ≤ N) ∧
+    ((parseArray b).1 = .fail ∨ ∃ l, (parseArray b).1 = .ok l) := by
+  obtain ⟨h1, h2⟩ := parseArray_safe b N h0 hN
+  refine ⟨h2, ?_⟩
+  cases h : (parseArray b).1 with
+  | oof => exact absurd h h1
+  | fail => exact Or.inl rfl
+  | ok l => exact Or.inr ⟨l, rfl⟩
+
+example : (parseArray [123, 34, 0]).1 = .fail ∧ (parseArray [123, 34, 0]).2 = [2, 1, 0, 0] := by decide
+
+/-- the same for a C string `s` (no NUL inside) followed by its terminator -/
+theorem array_reads_in_bounds_cstr (s : Bytes) :
+    ∀ i ∈ (parseArray (s ++ [0])).2, i ≤ s.length := by
+  have h0 : (s ++ [0]).getD s.length 0 = 0 := by
+    have := getD_at s 0 []
+    simpa using this
+  exact (array_reads_in_bounds (s ++ [0]) s.length h0 (by simp)).1
+
+example : ∀ i ∈ (parseArray ([123, 34, 92, 120] ++ [0])).2, i ≤ 4 := array_reads_in_bounds_cstr _
+
+/-- F8, the code at the pinned commit: on the 3-byte block `{"\0` the scan reads index 3 -/
+theorem parse_array_old_overread : 3 ∈ (parseArrayOld [123, 34, 0]).2 := parseArrayOld_overread
+
+/-- ARRAY ROUND TRIP: for every list of items — each a NULL in any letter case, a bare element
+    or a quoted element, with arbitrary backslash escapes (also of blanks at either end), blanks
+    before and after, optional dimension prefix — whose text is array syntax (`Item.valid`,
+    `dimValid`), `pg_parse_array` of the rendered text returns exactly the list of values -/
+theorem array_roundtrip (dim : Option Bytes) (items : List Item) (hd : dimValid dim = true)
+    (hv : ∀ it ∈ items, it.valid = true) :
+    (parseArray (renderArray dim items ++ [0])).1 = .ok (items.map (·.e.value)) :=
+  parseArray_render dim items hd hv
+
+example : (Item.mk [32] (.quoted [⟨97, false⟩, ⟨34, true⟩, ⟨44, false⟩]) [9]).valid = true ∧
+    (Item.mk [] (.null [78, 117, 76, 108]) []).valid = true ∧
+    (Item.mk [] (.bare [⟨123, false⟩, ⟨32, true⟩, ⟨98, false⟩, ⟨32, true⟩]) [32, 32]).valid = true ∧
+    (Item.mk [] (.bare [⟨97, false⟩, ⟨32, false⟩]) []).valid = false ∧
+    dimValid (some [49, 58, 51]) = true ∧
+    (parseArray (renderArray (some [49, 58, 51])
+      [Item.mk [32] (.quoted [⟨97, false⟩, ⟨34, true⟩, ⟨44, false⟩]) [9],
+       Item.mk [] (.null [78, 117, 76, 108]) [],
+       Item.mk [] (.bare [⟨123, false⟩, ⟨32, true⟩, ⟨98, false⟩, ⟨32, true⟩]) [32, 32]] ++ [0])).1
+      = .ok [some [97, 34, 44], none, some [123, 32, 98, 32]] := by decide
+
+end UsualProps.C13
